@@ -1425,7 +1425,15 @@ class Simplifier:
                     cond = cond.replace(this.pop().eq(cond))
 
                 if always_true(cond):
-                    return case.args["true"]
+                    if case is expression.args["ifs"][0]:
+                        return case.args["true"]
+
+                    # Earlier branches can still match: this branch only ends the search, so it
+                    # becomes the default and the branches after it are unreachable
+                    ifs = expression.args["ifs"]
+                    expression.set("default", case.args["true"])
+                    expression.set("ifs", ifs[: ifs.index(case)])
+                    break
 
                 if always_false(cond):
                     case.pop()
